@@ -5,6 +5,7 @@ package main
 import (
 	"encoding/json"
 	"fmt"
+	"math/rand"
 	"os"
 	"path/filepath"
 	"sort"
@@ -351,9 +352,148 @@ func genMatch(c *rig.Ctx, raw bool) MatchCase {
 	return mc
 }
 
+// ---------------------------------------------------------------------------------------------
+// sequences on ONE long-lived ClusterInfo: "the decision depends only on the request attributes and the cluster's current
+// policy list" — not on the requests served before, nor on earlier policy lists
+
+type SeqStep struct {
+	Sync  *int                   `json:"sync,omitempty"`  // install policy list Versions[*Sync]
+	Attrs map[string]interface{} `json:"attrs,omitempty"` // or route this request
+}
+
+type SeqCase struct {
+	Kind     string                       `json:"kind"` // "seq"
+	Versions [][][]map[string]interface{} `json:"versions"`
+	Steps    []SeqStep                    `json:"steps"`
+}
+
+func runSeq(c *rig.Ctx, sc SeqCase, record bool) bool {
+	fail := func(kind, class, what string) bool {
+		if record {
+			c.Fail(rig.Failure{Kind: kind, Class: class, What: what, Case: sc})
+		}
+		return false
+	}
+	var ci *clusters.ClusterInfo
+	msg, panicked := rig.Recover(func() { ci = clusters.NewEmptyClusterInfo("c", nil, nil, "", nil) })
+	if panicked {
+		return fail("judge", "c01.panic", "NewEmptyClusterInfo panicked: "+msg)
+	}
+	defer ci.Stop()
+	cur := -1
+	for k, st := range sc.Steps {
+		if st.Sync != nil {
+			cur = *st.Sync
+			ps := policiesOf(MatchCase{Policies: sc.Versions[cur]})
+			ci.Sync(&proxyv1alpha1.UpstreamCluster{ObjectMeta: metav1.ObjectMeta{Name: "c"}, Spec: proxyv1alpha1.UpstreamClusterSpec{DispatchPolicies: ps}})
+			continue
+		}
+		if cur < 0 {
+			continue
+		}
+		got := -1
+		msg, panicked := rig.Recover(func() {
+			if picker, err := ci.MatchAttributes(attrsOf(st.Attrs).Record()); err == nil {
+				got = -3
+				fmt.Sscanf(picker.FlowControlName(), "fc-%d", &got)
+			}
+		})
+		if panicked {
+			return fail("judge", "c01.panic", fmt.Sprintf("step %d: MatchAttributes panicked: %s", k, msg))
+		}
+		var m struct {
+			Idx     int `json:"idx"`
+			SpecIdx int `json:"spec_idx"`
+		}
+		if err := c.Model("C01.match", MatchCase{Kind: "match", Attrs: st.Attrs, Policies: sc.Versions[cur]}, &m); err != nil {
+			return fail("diff", "c01.model-error", "model error "+err.Error())
+		}
+		if got != m.SpecIdx {
+			return fail("judge", "c01.sequence", fmt.Sprintf("step %d: on the long-lived ClusterInfo the request is routed under policy %d, but the first policy of the CURRENT list (version %d) with a matching rule is %d — the decision depends on something else than the request and the current policy list",
+				k, got, cur, m.SpecIdx))
+		}
+	}
+	return true
+}
+
+// variant changes exactly one attribute of a request (what a cache keyed by too few attributes would miss)
+func variant(r *rand.Rand, a mg.Attrs, raw bool) mg.Attrs {
+	b := mg.GenAttrs(r, raw)
+	switch r.Intn(9) {
+	case 0:
+		a.Groups = b.Groups
+	case 1:
+		a.Groups = append(append([]string{}, a.Groups...), mg.Request(r, raw))
+	case 2:
+		a.User = b.User
+	case 3:
+		a.Verb = b.Verb
+	case 4:
+		a.Name = b.Name
+	case 5:
+		a.Path = b.Path
+	case 6:
+		a.Resource, a.Subresource = b.Resource, b.Subresource
+	case 7:
+		a.APIGroup = b.APIGroup
+	case 8:
+		a.IsResource = !a.IsResource
+	}
+	return a
+}
+
+func genSeq(c *rig.Ctx, raw bool) SeqCase {
+	r := c.Rng
+	sc := SeqCase{Kind: "seq"}
+	var rules []proxyv1alpha1.DispatchPolicyRule
+	for v, nv := 0, 1+r.Intn(2); v < nv; v++ {
+		ver := [][]map[string]interface{}{}
+		for i, n := 0, 1+r.Intn(4); i < n; i++ {
+			p := []map[string]interface{}{}
+			for j, k := 0, 1+r.Intn(3); j < k; j++ {
+				rule := mg.Rule(r, raw)
+				if r.Intn(2) == 0 { // make the optional identity fields decisive more often
+					rule.UserGroups, rule.Users = mg.List(r, raw), mg.List(r, raw)
+				}
+				rules = append(rules, rule)
+				p = append(p, mg.RuleJSON(rule))
+			}
+			ver = append(ver, p)
+		}
+		sc.Versions = append(sc.Versions, ver)
+	}
+	zero := 0
+	sc.Steps = append(sc.Steps, SeqStep{Sync: &zero})
+	var seen []mg.Attrs
+	for k, n := 0, 6+r.Intn(10); k < n; k++ {
+		if len(sc.Versions) > 1 && r.Intn(8) == 0 {
+			v := r.Intn(len(sc.Versions))
+			sc.Steps = append(sc.Steps, SeqStep{Sync: &v})
+			continue
+		}
+		var a mg.Attrs
+		switch {
+		case len(seen) > 0 && r.Intn(2) == 0:
+			a = variant(r, seen[r.Intn(len(seen))], raw)
+		case len(seen) > 0 && r.Intn(4) == 0:
+			a = seen[r.Intn(len(seen))] // the same request again
+		default:
+			a = mg.AttrsFor(r, rules[r.Intn(len(rules))], raw)
+		}
+		seen = append(seen, a)
+		sc.Steps = append(sc.Steps, SeqStep{Attrs: a.JSON()})
+	}
+	return sc
+}
+
 func runAny(c *rig.Ctx, raw json.RawMessage, record bool) bool {
 	var k struct{ Kind string }
 	json.Unmarshal(raw, &k)
+	if k.Kind == "seq" {
+		var sc SeqCase
+		json.Unmarshal(raw, &sc)
+		return runSeq(c, sc, record)
+	}
 	if k.Kind == "match" {
 		var mc MatchCase
 		json.Unmarshal(raw, &mc)
@@ -367,7 +507,7 @@ func runAny(c *rig.Ctx, raw json.RawMessage, record bool) bool {
 func main() {
 	rig.QuietKlog()
 	rig.Main("C01", func(c *rig.Ctx) {
-		c.SetRule("field cases: one of the 7 field matchers on a rule list (0-4 entries from a 39-token colliding universe or raw bytes; classes empty/star/positive/mixed/inverted-1/inverted-n) against request values from a 29-token universe; match cases: 0-4 policies x 0-3 rules against a request tuple, through clusters.MatchPolicies, RuleMatches and ClusterInfo.MatchAttributes. distinct = distinct canonical case; non-trivial = the rule list is not empty and not match-all (field) / at least one policy has a rule (match)")
+		c.SetRule("field cases: one of the 7 field matchers on a rule list (0-4 entries from a 39-token colliding universe or raw bytes; classes empty/star/positive/mixed/inverted-1/inverted-n) against request values from a 29-token universe; match cases: 0-4 policies x 0-3 rules against a request tuple, through clusters.MatchPolicies, RuleMatches and ClusterInfo.MatchAttributes; sequence cases: 6-15 requests (derived from the rules, single-attribute variants of earlier requests, repeats) and policy-list changes on ONE long-lived ClusterInfo. distinct = distinct canonical case; non-trivial = the rule list is not empty and not match-all (field) / at least one policy has a rule (match)")
 		if c.Replay != "" {
 			var raw json.RawMessage
 			if err := c.LoadReplay(&raw); err != nil {
@@ -410,6 +550,18 @@ func main() {
 			c.Trace()
 			if !runMatch(c, mc, false) {
 				runMatch(c, shrinkMatch(c, mc), true)
+			}
+		}
+		nSeq := c.Budget(2500, 60000)
+		for i := 0; i < nSeq && !c.Stop(); i++ {
+			sc := genSeq(c, i%4 == 3)
+			c.Case(rig.Canon(sc), true, fmt.Sprintf("seq:versions=%d", len(sc.Versions)), nil)
+			c.Trace()
+			if !runSeq(c, sc, false) {
+				steps := rig.ShrinkList(sc.Steps, func(l []SeqStep) bool { x := sc; x.Steps = l; return !runSeq(c, x, false) })
+				x := sc
+				x.Steps = steps
+				runSeq(c, x, true)
 			}
 		}
 		if c.Thorough() {
